@@ -653,11 +653,13 @@ def rule_sld(r):
         r.check(a[-1:] in (["1000000.0"], ["1e6"]), F, "convert_model", "_rescale_sld(..., %s)" % a[-1], st[0][2].lineno, "factor 1e6")
 
 
+from . import extra3 as _x3
 RULES = [
     ("R-C20-sld", 6, "SLD classification and rescale stage", rule_sld),
     ("R-C20-type", 3, "no str method on a (key,value) tuple in convert.py", rule_type),
     ("R-C20-names", 2, "every listed old model name is looked up", rule_names),
     ("R-C20-table", 300, "each table row ends in a parameter of the target model under the source's stage order", rule_table),
+    ("R-C20-rows", 60, "every confirmed (new -> legacy) pair of the conversion table is still there", _x3.rule_c20_rows),
     ("R-C20-defaults", 2, "defaulted keys exist in every target model", rule_defaults),
     ("R-C20-stage", 2, "dot/underscore typestate across the version loop", rule_stage),
     ("R-C20-suffix", 8, "suffix tables agree", rule_suffix),
